@@ -311,7 +311,7 @@ class Orchestrator:  # thailint: ignore[srp]
             List of violations found in the file.
         """
         # Fast path: skip compiled files and common excluded directories
-        if _is_hardcoded_excluded(file_path):
+        if _is_hardcoded_excluded(self._path_within_project(file_path)):
             return []
 
         if self.ignore_parser.is_ignored(file_path):
@@ -325,6 +325,18 @@ class Orchestrator:  # thailint: ignore[srp]
         context = FileLintContext(file_path, language, metadata=metadata)
 
         return self._execute_rules(rules, context)
+
+    def _path_within_project(self, file_path: Path) -> Path:
+        """Return the path relative to the project root when the file lives under it.
+
+        Exclusions are decided by the path inside the project, not by the directories
+        leading to it (a project checked out under e.g. ``/work/build/`` is still linted).
+        """
+        try:
+            absolute = Path(os.path.abspath(file_path))
+            return absolute.relative_to(os.path.abspath(self.project_root))
+        except ValueError:
+            return file_path
 
     def lint_files(self, file_paths: list[Path]) -> list[Violation]:
         """Lint multiple files.
